@@ -54,6 +54,10 @@ func (s *Scanner) Scan() (tok Token, lit string) {
 				return ENDOFLINE, ""
 			} else {
 				aio.PrintMessage("\\r without \\n detected...")
+				// The character that follows is not part of the end of line:
+				// it is given back, and the \r alone ends the line
+				s.unread()
+				return ENDOFLINE, ""
 			}
 		} else {
 			return ENDOFLINE, ""
